@@ -370,13 +370,16 @@ func run(c *core.Ctx) {
 		if (i-1)%nShards != shard || c.Expired() {
 			return
 		}
-		caseNo, _ := c.Begin()
+		caseNo, run := c.Begin()
+		in := Input{Desc: cs.Desc, Files: ircmp.Files(cs.W, []string{"a", "as", "b"}), Index: i - 1}
+		if c.Skip(caseNo, run, in) {
+			return
+		}
 		c.Exec()
 		c.Validate()
 		c.Edge(2)
 		c.StateN(1)
 		c.NontrivialN(1)
-		in := Input{Desc: cs.Desc, Files: ircmp.Files(cs.W, []string{"a", "as", "b"}), Index: i - 1}
 		if f := checkCopy(cs); f != nil {
 			c.Outcome("FAIL:" + f.fp)
 			c.Fail(caseNo, f.classes, f.fp, in, f.exp, f.obs)
